@@ -20,7 +20,7 @@ impl PanicReport {
         let f = self.file.rsplit('/').next().unwrap_or("").to_string();
         let mut m = String::new();
         let mut last_us = false;
-        for c in self.msg.chars().take(60) {
+        for c in self.msg.chars().filter(|c| !c.is_ascii_digit()).take(60) {
             let c = if c.is_ascii_alphabetic() { c } else { '_' };
             if c == '_' {
                 if !last_us {
